@@ -1,6 +1,8 @@
 package simnet
 
 import (
+	"time"
+
 	"chgosim/refproto"
 )
 
@@ -11,6 +13,9 @@ type Step struct {
 	Send         []byte
 	Fin, Rst     bool
 	Label        string
+	Delay        time.Duration // wait this long (simulated) after the step became ready
+	armed        bool
+	fireAt       time.Duration
 	// OnPacket, when set, makes this step wait for one more client packet of
 	// any kind and pass it to the function, which returns what to send.
 	OnPacket func(p *refproto.ClientPacket) []byte
@@ -55,6 +60,15 @@ func (s *Server) stepReady(c *Conn) bool {
 	}
 	if st.AfterBytes > c.OutLen() {
 		return false
+	}
+	if st.Delay > 0 {
+		if !st.armed {
+			st.armed = true
+			st.fireAt = c.Sim.Now() + st.Delay
+			c.Sim.WakeAfter(st.Delay)
+			return false
+		}
+		return c.Sim.Now() >= st.fireAt
 	}
 	return true
 }
